@@ -123,7 +123,7 @@ func OracleEventLog(prop string) func(w *Writers, hist []string) []explore.Viola
 				last[id] = e.GetClock().GetTime()
 			}
 			n := len(L)
-			amounts := []*int{nil, intp(0), intp(1), intp(2), intp(n), intp(n + 3), intp(-1), intp(math.MaxInt), intp(math.MaxInt - n), intp(math.MinInt)}
+			amounts := []*int{nil, intp(0), intp(1), intp(2), intp(n), intp(n + 3), intp(-1), intp(-2), intp(-3), intp(-n), intp(-n - 1), intp(math.MaxInt), intp(math.MaxInt - n), intp(math.MinInt)}
 			type q struct {
 				kind string
 				p    int
@@ -251,7 +251,7 @@ var _ = sort.Strings
 func init() {
 	explore.Register(&explore.CheckDef{
 		ID: "C08", Level: "model_checking",
-		Rule: "explicit-state DFS over all sequences of Add by each writer and merge(i<-j) actions up to the depth bound (every prefix of every merge sequence is a state); in every state on every replica: listing == log order, ancestors first, per-writer write order, every query {no bound, gt/gte/lt/lte x every entry} x amount {unset,0,1,2,len,len+3,-1} equals the index window of the full listing, Get(hash) for every entry; around every action the previous listing must be a subsequence of the new one. Non-trivial = distinct states in which some replica holds entries of two writers.",
+		Rule: "explicit-state DFS over all sequences of Add by each writer and merge(i<-j) actions up to the depth bound (every prefix of every merge sequence is a state); in every state on every replica: listing == log order, ancestors first, per-writer write order, every query {no bound, gt/gte/lt/lte x every entry} x amount {unset,0,1,2,len,len+3,-1,-2,-3,-len,-len-1,MaxInt,MaxInt-len,MinInt} equals the index window of the full listing, Get(hash) for every entry; around every action the previous listing must be a subsequence of the new one. Non-trivial = distinct states in which some replica holds entries of two writers.",
 		Units: func(tier string) []explore.Unit {
 			if tier == "thorough" {
 				u := shardUnits(DFSArg{Kind: "eventlog", Writers: 2, Depth: 9, Alpha: "one", SD: 3}, 64)
